@@ -67,9 +67,9 @@ def gen(rng, tier):
         style = rng.choice(['default', 'load', 'load', 'deprecated'] if rvlike else ['default', 'load', 'load'])
         if style == 'load':
             if rvlike:
-                r['load'] = rng.choice([['pos'], ['vel'], ['pos', 'vel'], ['vel', 'pos']])
+                r['load'] = rng.choice([['pos'], ['vel'], ['pos', 'vel'], ['vel', 'pos'], []])     # [] = no columns
             else:
-                k = rng.randrange(1, len(PIDCOLS) + 1)
+                k = rng.randrange(0 if rng.random() < 0.15 else 1, len(PIDCOLS) + 1)
                 r['load'] = rng.sample(PIDCOLS, k) + (['aux'] if rng.random() < 0.2 else [])
         elif style == 'deprecated':
             r['load_pos'] = rng.choice([True, False, None])
